@@ -67,6 +67,7 @@ def gen_cases(rng, tier):
         if defect == 'gap' and cfg['S'] < 3:
             cfg['S'] = rng.choice([3, 4])
         files = L.grid_from_config(rng, cfg)
+        attrs = L.vary_attrs(rng, cfg, files)
         files, note = L.apply_defect(rng, cfg, files, defect)
         order = L.add_order(rng, files)
         ops = []
@@ -79,6 +80,7 @@ def gen_cases(rng, tier):
             ops.append(rand_query(rng))
         final = ['nifti', rng.choice(L.VOXEL_ORDERS), rng.random() < 0.6] if rng.random() < 0.85 else ['wrapper', rng.choice(L.VOXEL_ORDERS)]
         ops.append(final)
+        note['attrs'] = attrs
         case = {'kind': '%s/%s' % (cfg['mode'], defect), 'note': note, 'dims': [cfg['S'], cfg['T'], cfg['V']],
                 'orient': cfg['orient'], 'direction': cfg['direction'], 'fresh_seed': rng.randrange(1 << 30)}
         case.update(L.case_header(cfg))
